@@ -96,3 +96,33 @@ b_sum 1
 	p := NewOpenMetricsParser([]byte(input), labels.NewSymbolTable())
 	dump(t, p, "plain")
 }
+
+func TestF22ValidateFailure(t *testing.T) {
+	input := `# TYPE bad histogram
+bad_bucket{le="1.0"} 10
+bad_count 5
+# TYPE good histogram
+good_bucket{le="2.0"} 1
+good_bucket{le="+Inf"} 2
+good_count 2
+good_sum 3
+# EOF
+`
+	p := NewOpenMetricsParser([]byte(input), labels.NewSymbolTable())
+	dump(t, NewNHCBParser(p, labels.NewSymbolTable(), false, false), "f22")
+}
+
+func TestF23StaleExemplarAfterFailure(t *testing.T) {
+	input := `# TYPE bad histogram
+bad_bucket{le="1.0"} 1 # {id="bad1"} 0.5
+bad_bucket{le="+Inf"} 4 # {id="bad2"} 2.0
+bad_count 5
+# TYPE good histogram
+good_bucket{le="1.0"} 1 # {id="good1"} 0.5
+good_bucket{le="+Inf"} 2
+good_count 2
+# EOF
+`
+	p := NewOpenMetricsParser([]byte(input), labels.NewSymbolTable())
+	dump(t, NewNHCBParser(p, labels.NewSymbolTable(), false, false), "f23")
+}
